@@ -3,7 +3,7 @@
 // Real side: scanner.New(src, mode) … Scan/Token/Literal/StringValue/Position/Errors.
 // Model side: lean/ApiFu/C07 (driver c07model), which answers every text with
 //
-//	<model tokens>|<model errors>|<ok|err>|<reference-lexer tokens>
+//	<model tokens>|<model errors>|<ok|err>|<reference-lexer tokens>|<ok|err>|<loose-reference tokens>
 //
 // Per text we compare
 //
@@ -11,7 +11,11 @@
 //	         code points; errors as line:column) with the model's, byte for byte in a canonical form;
 //	(spec)   for valid UTF-8: the real scanner's observable with the Lean *reference lexer*
 //	         (Spec.lexAll, written from the grammar): verdict ok ⇒ identical tokens and no error,
-//	         verdict error ⇒ at least one error and identical tokens before the first lexical error;
+//	         verdict error ⇒ at least one error and identical tokens before the first lexical error.
+//	         Where the June-2018 text leaves the reading open (D1 dangling exponent, D2 BOM inside the
+//	         text, D3 `"""` without a closing `"""`) the scanner implements the strict reading; an output
+//	         that agrees with the pure longest-match reading (Spec.lexAllLoose) is not reported as a
+//	         property violation either (it still breaks the tie);
 //	(go)     model-free oracles on the real output: no crash, progress, tokens in order and (without
 //	         errors) tiling the text, positions equal an independent line/column count, every literal
 //	         matches the regular expression of its kind, quoted strings decode like JSON strings,
@@ -300,7 +304,7 @@ func goOracle(c Case, o obs, elems []int, valid bool) string {
 		case token.LINE_TERMINATOR:
 			ok = t.Literal == "\n" || t.Literal == "\r" || t.Literal == "\r\n"
 		case token.UNICODE_BOM:
-			ok = t.Literal == "\ufeff" && t.ByteOff == 0
+			ok = t.Literal == "\ufeff" // at offset 0 by the strict reading (D2); position is left to the reference lexers
 		case token.COMMENT:
 			ok = strings.HasPrefix(t.Literal, "#") && !strings.ContainsAny(t.Literal, "\r\n")
 		case token.STRING_VALUE:
@@ -379,11 +383,12 @@ type harness struct {
 }
 
 type verdict struct {
-	kind string // "" ok | property | correspondence | crash
-	what string
-	real string
-	mod  string
-	spec string
+	kind  string // "" ok | property | correspondence | crash
+	what  string
+	real  string
+	mod   string
+	spec  string
+	loose string
 }
 
 // judge evaluates one case given the driver's reply ("" when running without the model).
@@ -409,18 +414,28 @@ func (h *harness) judge(c Case, reply string, count bool) verdict {
 	specVerdict := ""
 	if reply != "" {
 		parts := strings.Split(reply, "|")
-		if len(parts) != 4 {
+		if len(parts) != 6 {
 			v.kind, v.what = "correspondence", fmt.Sprintf("unexpected driver reply %q", reply)
 			return v
 		}
 		v.mod = parts[0] + "|" + parts[1]
 		v.spec = parts[2] + "|" + parts[3]
+		v.loose = parts[4] + "|" + parts[5]
 		specVerdict = parts[2]
 		if v.mod != v.real {
 			tie = fmt.Sprintf("scanner and model disagree: scanner [%s], model [%s]", v.real, v.mod)
 		}
 		if valid && o.Panic == "" {
 			sw = specOracle(o, parts[2], parts[3])
+			if sw != "" && (parts[4] != parts[2] || parts[5] != parts[3]) && specOracle(o, parts[4], parts[5]) == "" {
+				sw = "" // agrees with the other reading of D1–D3
+				if count {
+					h.run.Count("oracle:accepted-by-loose-reading-only")
+				}
+			}
+			if count && (parts[4] != parts[2] || parts[5] != parts[3]) {
+				h.run.Count("reference:strict-and-loose-readings-differ")
+			}
 		}
 	}
 	if count {
@@ -493,23 +508,6 @@ func (h *harness) ask(c Case) string {
 	return rep
 }
 
-// classify attaches the key of a (fixed) finding to a shrunk failing case: used to say which patch
-// is missing when the check runs on a tree without the C07 patches.
-func classify(c Case, v verdict) string {
-	s := string(c.src())
-	switch {
-	case strings.Contains(s, "\ufffd") && utf8.Valid(c.src()) && strings.Contains(v.what, "character boundaries"):
-		return " [F-07a: literal U+FFFD sized as one byte — patch 01 missing?]"
-	case strings.Contains(s, `"""`) && strings.Contains(s, `\`) && v.kind == "property":
-		return " [F-07c/F-07e: backslash in a block string — patch 04 missing?]"
-	case strings.Contains(s, `"""`) && v.kind == "property" && strings.ContainsAny(s, "\r\n"):
-		return " [F-07b: short whitespace-only line in a block string — patch 02 missing?]"
-	case strings.Contains(s, "#") && v.kind == "property" && strings.Contains(v.what, "reports no error"):
-		return " [F-07c: non-SourceCharacter in a comment — patch 03 missing?]"
-	}
-	return ""
-}
-
 func (h *harness) report(c Case, v verdict) {
 	// shrink: drop elements (whole characters / invalid bytes) while the case still fails the same way
 	cur, curV := c, v
@@ -526,7 +524,7 @@ func (h *harness) report(c Case, v verdict) {
 			i += size
 		}
 	}
-	what := fmt.Sprintf("%s (mode %d): %s%s", strconv.QuoteToASCII(string(cur.src())), cur.Mode, curV.what, classify(cur, curV))
+	what := fmt.Sprintf("%s (mode %d): %s", strconv.QuoteToASCII(string(cur.src())), cur.Mode, curV.what)
 	h.run.Violate(curV.kind, what, "", curV.kind == "correspondence", cur)
 }
 
@@ -806,7 +804,7 @@ func main() {
 			os.Exit(2)
 		}
 		v := h.judge(c, h.ask(c), true)
-		fmt.Printf("replay %s mode %d\n scanner:   %s\n model:     %s\n reference: %s\n verdict:   kind=%q %s\n", strconv.QuoteToASCII(string(c.src())), c.Mode, v.real, v.mod, v.spec, v.kind, v.what)
+		fmt.Printf("replay %s mode %d\n scanner:   %s\n model:     %s\n reference: %s\n loose ref: %s\n verdict:   kind=%q %s\n", strconv.QuoteToASCII(string(c.src())), c.Mode, v.real, v.mod, v.spec, v.loose, v.kind, v.what)
 		if v.kind != "" {
 			run.Violate(v.kind, v.what, "", v.kind == "correspondence", c)
 		}
